@@ -898,7 +898,12 @@ func randCmdB(r *mrand.Rand) (string, string) {
 func randIn14(r *mrand.Rand) vIn14 {
 	cmd, cls := randCmdB(r)
 	in := vIn14{Cmd: hx(cmd), Xok: "na", Cls: cls, Ipc: "unknown"}
-	switch r.Intn(6) {
+	good := r.Intn(2) == 0 // every other call has well-formed server-side inputs, so that the command text decides
+	lsel, csel := r.Intn(6), r.Intn(8)
+	if good {
+		lsel, csel = 2+r.Intn(4), []int{0, 5, 6, 7}[r.Intn(4)]
+	}
+	switch lsel {
 	case 0:
 		in.Log = hx("")
 	case 1:
@@ -907,7 +912,10 @@ func randIn14(r *mrand.Rand) vIn14 {
 		in.Log = hx(pick(r, poolNames))
 	}
 	rest := pick(r, []string{"", " 22", " 50000 10.0.0.1 22", " " + randV4(r) + " 1", "  x", " \x00"})
-	switch r.Intn(8) {
+	if good {
+		rest = pick(r, []string{"", " 22", " 50000 10.0.0.1 22"})
+	}
+	switch csel {
 	case 0:
 		in.Conn, in.Ipc = hx(pick(r, poolV6)+rest), "v6"
 	case 1:
@@ -923,7 +931,11 @@ func randIn14(r *mrand.Rand) vIn14 {
 	}
 	nargs := r.Intn(9)
 	in.Argv = make([]string, nargs)
-	valid := r.Intn(3) > 0
+	valid := good || r.Intn(3) > 0
+	if good && nargs == 0 {
+		nargs = 2
+		in.Argv = make([]string, nargs)
+	}
 	for i := range in.Argv {
 		w := make([]string, 1+r.Intn(3))
 		for j := range w {
@@ -937,7 +949,11 @@ func randIn14(r *mrand.Rand) vIn14 {
 	if valid && nargs > 0 {
 		// a well-formed force command in the tail, possibly inside one argument
 		tail := pick(r, []string{"NSOK", "NONS"}) + " " + pick(r, poolHandler)
-		switch r.Intn(3) {
+		sel := r.Intn(3)
+		if good {
+			sel = r.Intn(2)
+		}
+		switch sel {
 		case 0:
 			in.Argv = []string{"gensign", "-c", "/usr/bin/gensign " + tail}[:3]
 		case 1:
